@@ -72,17 +72,20 @@ Lemma hydro_arg_not_monotone :
   exists rho ct grad d1 d2, 0 < rho /\ 0 < ct /\ 0 < grad /\ 0 < d1 /\ d1 < d2 /\
     hydro_arg rho ct grad d2 < hydro_arg rho ct grad d1.
 Proof.
-  exists 1000, (5 # 10000), 50, 40, 80. repeat split; try lra. vm_compute. reflexivity.
+  exists 1000, (5 # 10000), 50, 40, 80. repeat split; first [lra | vm_compute; reflexivity].
 Qed.
 
 Lemma hydro_of_exp_closed e : hydro_of_exp e == (e - 1) / CP.
 Proof. unfold hydro_of_exp, CP. field. Qed.
 
+Lemma hydro_of_exp_lin e : hydro_of_exp e == (1000000000 # 464) * (e - 1).
+Proof. unfold hydro_of_exp, CP. field. Qed.
+
 Lemma hydro_of_exp_mono e1 e2 : e1 <= e2 -> hydro_of_exp e1 <= hydro_of_exp e2.
-Proof. intros H. unfold hydro_of_exp, CP. lra. Qed.
+Proof. intros H. rewrite !hydro_of_exp_lin. lra. Qed.
 
 Lemma hydro_of_exp_pos e : 1 < e -> 0 < hydro_of_exp e.
-Proof. intros H. unfold hydro_of_exp, CP. lra. Qed.
+Proof. intros H. rewrite hydro_of_exp_lin. lra. Qed.
 
 (* the pressure, for any function [ex] in the place of math.exp that is non-decreasing, > 1 on positive arguments *)
 Lemma hydrostatic_pos ex rho pw grad depth :
@@ -101,11 +104,9 @@ Lemma hydrostatic_lower_bound ex rho pw grad depth :
   (forall x, 1 + x <= ex x) ->
   rho * (981 # 100) / 1000 * (depth - ct_of pw / 2 * grad * (depth * depth)) <= hydrostatic_kPa ex rho pw grad depth.
 Proof.
-  intros Hex. unfold hydrostatic_kPa. rewrite hydro_of_exp_closed.
+  intros Hex. unfold hydrostatic_kPa. rewrite hydro_of_exp_lin.
   set (x := hydro_arg rho (ct_of pw) grad depth). pose proof (Hex x) as H.
-  assert (E : rho * (981 # 100) / 1000 * (depth - ct_of pw / 2 * grad * (depth * depth)) == x / CP).
+  assert (E : rho * (981 # 100) / 1000 * (depth - ct_of pw / 2 * grad * (depth * depth)) == (1000000000 # 464) * x).
   { unfold x, hydro_arg, CP. field. }
-  rewrite E. unfold CP.
-  apply Qle_shift_div_l; [lra|].
-  setoid_replace (x / (464 # 1000000000) * (464 # 1000000000)) with x by field. lra.
+  rewrite E. lra.
 Qed.
